@@ -1164,7 +1164,7 @@ def generate(tier, rng):
         bd = [b for b in bd if b['kind'] not in ('prod', 'pair')] + rng.sample(prods, 150)
     for inp in bd:
         yield inp
-    n = 620 if quick else 6500
+    n = 620 if quick else 5200
     for i in range(n):
         if i % 25 == 24:
             yield reject_one(rng)
